@@ -34,6 +34,7 @@ func runC07(w *core.World, r *core.Report) {
 	r.Rule("R1", "live fields of State/Cache are in the CBOR snapshot (exported, not tagged out), or in the checked exception table")
 	r.Rule("R2", "request-state fields of Vm/Page/Menu/Sizer read on the run/render path are re-initialised on every path through the resume block")
 	r.Rule("R4", "Serialize/Deserialize and Save/Load are symmetric")
+	r.Rule("R10", "String/Error/Format methods of library types change nothing (they run wherever a value is logged)")
 	r.Rule("R9", "the pre-VM hook, which runs at every engine initialisation, does not move the state (Down/Up clear the page index)")
 	r.Rule("R8", "the configured default language is applied before the stored session is loaded, never after")
 	r.Rule("R7", "a refused State.Restart changes nothing: no store of Restart can be followed by one of its error returns")
@@ -243,6 +244,7 @@ func runC07(w *core.World, r *core.Report) {
 	}
 	checkConfigLanguageBeforeLoad(w, r, "R8")
 	checkHookKeepsPosition(w, r, "R9")
+	checkDiagnosticsArePure(w, r, "R10")
 }
 
 func unexportedNested(t types.Type, depth int) string {
